@@ -74,24 +74,30 @@ class C02(Prop):
     COQ_SHARD = 60
     CASE_TIMEOUT = 120
     LEVEL = "proof"
-    LEVEL_TEXT = ("PARTIAL. Proved in Coq (closed under the global context) over a hand-written model of the combinators: "
-                  "for a dot product over any number of ports fed any arrival list in which no two distinct tags are in "
-                  "the ancestor relation and every port carries each tag at most once, the run emits, for EVERY arrival "
-                  "order, exactly one combination per tag present on every port -- at the arrival of the last token of "
-                  "that tag, made of exactly the tokens of that tag -- nothing else, and raises nothing "
-                  "(C02_dot_flat_partial; one-tag special case with an explicit order-independence corollary). Three "
-                  "_refuted theorems exhibit the input classes in which the faithful model breaks the property text (a "
-                  "tag and its ancestor on one port of a dot product; a cartesian combinator with an inner combinator; a "
-                  "cartesian combinator over tokens of different depth). NOT proved: broadcast of parent tags to deeper "
-                  "tags, the cartesian cross product and its composite tags, nesting; these are decided case by case by "
-                  "an oracle written from the property text on the real code (combine() and CombinatorStep.run) under "
-                  "all / many arrival permutations, and the model (dict order, pop from the right, tag re-binding, "
-                  "exceptions included) is compared with the real code on every such run.")
-    LEVEL_NOTE = ("Universally quantified theorems cover only the dot product without parent/child tags; broadcast, "
-                  "cartesian and nested combinators rest on differential testing against the model plus the text oracle. "
-                  "Trusted: Coq kernel + vm_compute; the hand-written model Comb/Model.v; CPython dict/deque/"
-                  "itertools. Loop combinators are not covered here. No axioms.")
-    TECHNIQUE = ("Coq proof (closed-form state invariant over arrival lists) for the one-tag dot product + vm_compute "
+    LEVEL_TEXT = ("PARTIAL. Proved in Coq (closed under the global context) over a hand-written model of the combinators, "
+                  "each for EVERY arrival order and unbounded numbers of ports, tags and tokens: (1) dot product over "
+                  "streams without parent/child tags: exactly one combination per tag present on every port, at the "
+                  "arrival of its last token, nothing else, no exception (C02_dot_flat_partial), and two arrival orders "
+                  "give equal bags (C02_order_independent_flat_partial); (2) broadcast: one scattered port plus any number "
+                  "of ports delivering one parent-tagged token -- every scattered tag gets exactly one combination made "
+                  "of its token and the broadcast parent tokens, whenever the parents arrive "
+                  "(C02_dot_broadcast_partial); (3) cartesian product of depth d>=1 over streams whose tag groups are "
+                  "unrelated (implied by 'all tokens of one depth', C02_uniform_depth_groups_unrelated): the emitted "
+                  "combinations are exactly the full cross product, each once, with the composite tag "
+                  "(C02_cartesian_partial), and two arrival orders give equal bags "
+                  "(C02_order_independent_cartesian_partial). Three _refuted theorems exhibit the input classes in which "
+                  "the faithful model breaks the property text (a tag and its ancestor on one port of a dot product; a "
+                  "cartesian combinator with an inner combinator; a cartesian combinator over tokens of different depth). "
+                  "NOT proved: broadcast with several scattered ports or several tag levels, nested combinators; these "
+                  "are decided case by case by an oracle written from the property text on the real code (combine() and "
+                  "CombinatorStep.run) under all / many arrival permutations, and the model (dict order, pop from the "
+                  "right, tag re-binding, exceptions included) is compared with the real code on every such run.")
+    LEVEL_NOTE = ("Universally quantified theorems cover the flat dot product, single-scattered-port broadcast and the "
+                  "uniform-depth cartesian product with their order independence; general antichain broadcast and nesting "
+                  "rest on differential testing against the model plus the text oracle. Trusted: Coq kernel + "
+                  "vm_compute; the hand-written model Comb/Model.v; CPython dict/deque/itertools. Loop combinators are "
+                  "not covered here. No axioms.")
+    TECHNIQUE = ("Coq proof (closed-form state invariants over arrival lists; NoDup + membership for the cross product) + vm_compute "
                  "correspondence of an executable model against the real combinators + text oracle")
     RULE = ("combinator trees of depth <= 2 (dot / cartesian depth 1..2, outer over ports and flat inner combinators), "
             "0..4 tokens per port, tags of depth 1..3 rooted at 0 with multi-digit components, uniform-depth, parent/"
